@@ -1,6 +1,7 @@
 // Target for the kernel-history properties C01, C02, C03, C04, C12, C17 (oracle set chosen by id).
 #include "interp.hh"
 #include "oracle_c01.hh"
+#include "oracle_c09.hh"
 #include "props.hh"
 #include "snap.hh"
 #include "rcmain.hh"
@@ -97,6 +98,8 @@ vf::CaseResult run_case(const std::string &id, const Program &prog, Stats &st) {
   int swap_phase = 0;
   // C12
   bool op_while_disabled[3] = {false, false, false};
+  bool set_seen = false;
+  C09Ctx c09ctx;
 
   auto is_gc = [&](const Prim &p) { return p.t == P_GC || p.t == P_STATUS_GC || (p.t == P_EN_DEFERRED && !p.flag); };
 
@@ -194,6 +197,16 @@ vf::CaseResult run_case(const std::string &id, const Program &prog, Stats &st) {
         if (!S.fbu) op_while_disabled[2] = true;
         if (!S.vbu || !S.ebu || !S.fbu) st.count(std::string("mutation_with_disabled_kind:") + (S.deferred ? "deferred" : "immediate") + (S.fast ? "+fast" : ""));
       }
+      if (p.t == P_SET_FACE || p.t == P_SET_CELL || p.t == P_SET_EDGE) set_seen = true;
+      // "re-enabling a kind yields exactly the incidences the mesh would have had": the order of the halffaces around
+      // an edge is part of that; around single-fan edges it is determined (up to rotation) by the rotational-order
+      // rule, which is checked here right after the edge or face kind comes back (set_* documents that it does not
+      // reorder, histories containing it are not judged on order)
+      if ((p.t == P_EN_EBU || p.t == P_EN_FBU) && p.flag && S.ebu && S.fbu && !set_seen) {
+        m = c09_sweep(S.mesh, c09ctx);
+        st.count("reenable_order_checks");
+        if (!m.empty()) { I.set_fail("C12", "after " + p.render + ": order of the re-enabled incidences: " + m); return false; }
+      }
       if ((p.t == P_EN_VBU && p.flag && op_while_disabled[0]) || (p.t == P_EN_EBU && p.flag && op_while_disabled[1]) ||
           (p.t == P_EN_FBU && p.flag && op_while_disabled[2])) { nt = true; st.count("reenable_after_mutation"); }
     } else if (id == "C17") {
@@ -274,4 +287,4 @@ vf::CaseResult run_case(const std::string &id, const Program &prog, Stats &st) {
 
 }  // namespace target
 
-int main(int argc, char **argv) { return vf::generic_main(argc, argv); }
+VF_DEFINE_MAIN
